@@ -88,19 +88,97 @@ class World:
             16: v0 + 2.0 * v1 + w0 + 3.0 * w1,   # linear objective over both families
             17: 5.0 - v0,                     # 5 - v0 >= 0 is v0 <= 5, looser than ub = 4
         }
+        # expressions that *alias user-supplied NumPy data*: built anew (new arrays) for every history and again for every
+        # fresh reference problem, so that an in-place change of a coefficient array by the library can neither hide in a
+        # shared object nor leak into the reference.  recipe() -> (expression, [user arrays])
+        from optyx.core.vectors import LinearCombination
+
+        w = self.w
+
+        def r_c_at_w():
+            c = np.array([3.0, 1.0]); return c @ w, [c]
+
+        def r_w_at_c():
+            c = np.array([2.0, -1.0]); return w @ c, [c]
+
+        def r_lincomb():
+            c = np.array([1.0, 4.0]); return LinearCombination(c, w), [c]
+
+        def r_row(i):
+            def f():
+                A = np.array([[1.0, 2.0], [3.0, -1.0]]); return (A @ w)[i] - 3.0, [A]
+            return f
+
+        def r_int():
+            c = np.array([3, 1]); return c @ w, [c]
+
+        def r_list():
+            c = [3.0, 1.0]; return c @ w, []
+
+        def r_wrapped():
+            c = np.array([0.5, 2.0]); return 2.0 * (c @ w) + 1.0, [c]
+
+        def r_sum():
+            return w.sum() - 3.0, []
+
+        def r_mixed():
+            c = np.array([1.0, -2.0]); return (c @ w) + v0, [c]
+
+        self.recipes = {18: r_c_at_w, 19: r_w_at_c, 20: r_lincomb, 22: r_row(0), 23: r_row(1), 24: r_int,
+                        25: r_list, 26: r_sum, 27: r_wrapped, 28: r_mixed}
+        self.tag_of_id = {id(e): t for t, e in self.exprs.items()}
+        self.inst = {}
         self.ctx = {}
-        for t, e in self.exprs.items():
+        samples = dict(self.exprs)
+        samples.update({t: f()[0] for t, f in self.recipes.items()})
+        self._samples = samples
+        for t, e in samples.items():
             d = compute_degree(e)
             names = sorted(v.name for v in get_all_variables(e))
             self.ctx[t] = (d, [self.tag_of_name[n] for n in names])
         self.reset_bounds()
 
+    def new_history(self):
+        self.reset_bounds()
+        self.con_tag = {}
+        self.keep = []
+        self.inst = {}
+        self.tag_of_id = {id(e): t for t, e in self.exprs.items()}
+
+    def expr(self, t):
+        """the expression object of tag `t` in the current history (one object per history: re-submitting a tag passes the
+        identical object)"""
+        if t in self.exprs:
+            return self.exprs[t]
+        if t not in self.inst:
+            e, arrays = self.recipes[t]()
+            self.inst[t] = (e, arrays, [(a.copy(), a.dtype, a.tobytes()) for a in arrays])
+            self.tag_of_id[id(e)] = t
+        return self.inst[t][0]
+
+    def fresh_expr(self, t):
+        """a newly built expression of tag `t` (new arrays) for a reference problem"""
+        if t in self.exprs:
+            return self.exprs[t]
+        e, arrays = self.recipes[t]()
+        self.keep.append((e, arrays))
+        return e
+
+    def mutated_arrays(self):
+        """user-supplied arrays of this history that are no longer bit-identical to what the user passed in"""
+        bad = []
+        for t, (e, arrays, pristine) in self.inst.items():
+            for a, (cp, dt, raw) in zip(arrays, pristine):
+                if a.dtype != dt or a.tobytes() != raw:
+                    bad.append({"tag": t, "now": a.tolist(), "passed_in": cp.tolist()})
+        return bad
+
     def reset_bounds(self):
         for v, (lb, ub) in zip(self.vs, V0_BOUNDS):
             v.lb, v.ub = lb, ub
 
-    def con(self, t, sense):
-        e = self.exprs[t]
+    def con(self, t, sense, fresh=False):
+        e = self.fresh_expr(t) if fresh else self.expr(t)
         return {"<=": lambda: e <= 0.0, ">=": lambda: e >= 0.0, "==": lambda: e.eq(0.0)}[sense]()
 
     def ctx_text(self):
@@ -262,8 +340,7 @@ class Stubs:
 
 def snapshot(P, W):
     """the current model in the Lean driver's notation"""
-    tag_of = {id(e): t for t, e in W.exprs.items()}
-    o = "-" if P._objective is None else str(tag_of[id(P._objective)])
+    o = "-" if P._objective is None else str(W.tag_of_id[id(P._objective)])
     s = "min" if P._sense == "minimize" else "max"
     cons = " ".join(f"{W.con_tag[id(c)]}{c.sense}" for c in P._constraints)
     return f"({s} {o} ({cons}))"
@@ -305,9 +382,9 @@ def apply_op(P, W, op, stubs):
     """returns (obs_kind, payload) from the real code"""
     k = op[0]
     if k == "min":
-        P.minimize(W.exprs[op[1]]); return "unit"
+        P.minimize(W.expr(op[1])); return "unit"
     if k == "max":
-        P.maximize(W.exprs[op[1]]); return "unit"
+        P.maximize(W.expr(op[1])); return "unit"
     if k == "st":
         c = W.con(op[1], op[2]); W.con_tag[id(c)] = op[1]; W.keep.append(c)
         P.subject_to(c); return "unit"
@@ -371,9 +448,7 @@ def run_history(W, ops, stubs, with_oracle=True):
     """execute `ops` on a new Problem; returns (lean op texts, expected lines, oracle failures, stats)"""
     from optyx import Problem
 
-    W.reset_bounds()
-    W.con_tag = {}
-    W.keep = []
+    W.new_history()
     P = Problem()
     tr = Tracker()
     texts, lines, fails = [], [], []
@@ -398,6 +473,11 @@ def run_history(W, ops, stubs, with_oracle=True):
             stats["solves"] += 1
             if filled_then_edited:
                 stats["stale_risk"] += 1
+            mut = W.mutated_arrays()
+            if mut:
+                fails.append({"what": "a coefficient array supplied by the user is no longer bit-identical after solve()",
+                              "method": op[1], "arrays": mut[:3], "history": [list(o) for o in ops[: idx + 1]], "at": idx})
+                W.inst = {t: (e, a, [(x.copy(), x.dtype, x.tobytes()) for x in a]) for t, (e, a, _) in W.inst.items()}
             if with_oracle:
                 f = fresh_oracle(P, W, op, calls, obs, stubs)
                 if f is not None:
@@ -406,14 +486,21 @@ def run_history(W, ops, stubs, with_oracle=True):
     return texts, lines, fails, stats
 
 
-def fresh_problem(P):
+def fresh_problem(P, W):
+    """a new Problem in the current state of `P`: same Variable objects (the bounds live there), expressions that carry
+    user arrays rebuilt from *new* arrays — never the possibly mutated objects of the edited problem"""
     from optyx import Problem
 
     Q = Problem()
     if P._objective is not None:
-        (Q.minimize if P._sense == "minimize" else Q.maximize)(P._objective)
+        t = W.tag_of_id[id(P._objective)]
+        (Q.minimize if P._sense == "minimize" else Q.maximize)(W.fresh_expr(t))
     if P._constraints:
-        Q.subject_to(list(P._constraints))
+        cs = []
+        for c in P._constraints:
+            t = W.con_tag[id(c)]
+            cs.append(c if t in W.exprs else W.con(t, c.sense, fresh=True))
+        Q.subject_to(cs)
     return Q
 
 
@@ -460,7 +547,7 @@ def diff_calls(c1, c2):
 
 def fresh_oracle(P, W, op, calls, obs, stubs):
     """the same solve on a fresh Problem built from the current model; compare captured inputs"""
-    Q = fresh_problem(P)
+    Q = fresh_problem(P, W)
     saved = (stubs.calls, stubs.problem)
     stubs.calls = []
     stubs.problem = Q
@@ -501,7 +588,7 @@ def real_solver_oracle(W, ops):
     to agree to 1e-5).  Returns a failure dict or None."""
     from optyx import Problem
 
-    W.reset_bounds(); W.con_tag = {}; W.keep = []
+    W.new_history()
     P = Problem()
     for idx, op in enumerate(ops):
         if op[0] != "solve":
@@ -518,7 +605,12 @@ def real_solver_oracle(W, ops):
             except Exception as ex:  # noqa: BLE001
                 return ("raise:" + type(ex).__name__, None, {})
 
-        got, ref = one(P), one(fresh_problem(P))
+        got, ref = one(P), one(fresh_problem(P, W))
+        mut = W.mutated_arrays()
+        if mut:
+            return {"what": "a coefficient array supplied by the user is no longer bit-identical after solve() (real back end)",
+                    "method": op[1], "arrays": mut[:3], "history": [list(o) for o in ops[: idx + 1]], "at": idx,
+                    "real_back_end": True}
         bad = got[0] != ref[0]
         if not bad and got[1] is not None and ref[1] is not None and got[0] == "OPTIMAL":
             bad = abs(got[1] - ref[1]) > 1e-6 * (1.0 + abs(ref[1]))
@@ -606,8 +698,35 @@ def bound_relation_histories(rng, thorough):
     return hs
 
 
+ARRAY_OBJ = [18, 19, 20, 24, 25, 27, 28]      # objectives that wrap user-supplied arrays / lists
+ARRAY_CONS = [[(26, "<=")], [(22, "<="), (23, ">=")], [(14, ">="), (26, "<=")], [(1, ">="), (26, "<=")], []]
+
+
+def array_alias_histories(thorough):
+    """objectives and constraint rows that alias user-supplied NumPy data (`c @ x`, `x @ c`, LinearCombination(c, x), rows
+    of `A @ x`, int / list inputs, wrapped in k·…+b, mixed with a scalar variable) × minimise / maximise ×
+    histories that mix LP-path and NLP-path solves on one Problem, with and without cache-invalidating edits in between"""
+    ms = ["auto", "highs-ds", "SLSQP", "trust-constr"] if thorough else ["auto", "SLSQP", "highs-ds"]
+    edits = [("st", 14, ">="), ("ub", 3, 1.0), ("stv", ">=")]
+    hs = []
+    for t in ARRAY_OBJ:
+        for sense in ("max", "min"):
+            other = "min" if sense == "max" else "max"
+            for ci, cons in enumerate(ARRAY_CONS):
+                head = [(sense, t)] + ([("stl", tuple(cons))] if cons else [])
+                for i, m1 in enumerate(ms):
+                    for m2 in ms:
+                        e = edits[(i + ci) % len(edits)]
+                        hs.append(head + [("solve", m1, 0), ("solve", m2, 0)])
+                        hs.append(head + [("solve", m1, 0), e, ("solve", m2, 0), ("solve", m1, 0)])
+                    hs.append(head + [("solve", m1, 0), ("solve", m1, 0), edits[ci % 3], ("solve", m1, 0), (sense, t),
+                                      ("solve", "SLSQP", 0)])
+                    hs.append(head + [("solve", m1, 0), (other, t), ("solve", m1, 0), (sense, t), ("solve", "auto", 0)])
+    return hs
+
+
 def histories(rng, thorough):
-    hs = resubmit_histories() + bound_relation_histories(rng, thorough)
+    hs = resubmit_histories() + bound_relation_histories(rng, thorough) + array_alias_histories(thorough)
     for n in (1, 2):
         hs += [list(p) for p in itertools.product(FULL, repeat=n)]
     # length 3 over the full alphabet with an objective first (the other prefixes raise NoObjective / do nothing)
@@ -629,9 +748,10 @@ def histories(rng, thorough):
 def rand_op(rng):
     r = rng.random()
     if r < 0.16:
-        return (rng.choice(["min", "max"]), rng.choice([1, 2, 3, 4, 5, 6, 7, 16, 16, 8]))
+        return (rng.choice(["min", "max"]), rng.choice([1, 2, 3, 4, 5, 6, 7, 16, 16, 8, 18, 19, 20, 24, 27, 28]))
     if r < 0.30:
-        return ("st", rng.choice([1, 2, 3, 5, 6, 7, 8, 9, 10, 11, 12, 13, 14, 15, 16, 17]), rng.choice(["<=", ">=", "=="]))
+        return ("st", rng.choice([1, 2, 3, 5, 6, 7, 8, 9, 10, 11, 12, 13, 14, 15, 16, 17, 22, 23, 26, 18]),
+                rng.choice(["<=", ">=", "=="]))
     if r < 0.33:
         return ("stv", rng.choice([">=", "<="]))
     if r < 0.36:
@@ -670,7 +790,7 @@ def regression_f22(W, stubs, rep):
     ops = [("min", 1), ("st", 1, ">="), ("solve", "auto", 0), ("stbad", ((5, ">="),)), ("solve", "auto", 0)]
     from optyx import Problem
 
-    W.reset_bounds(); W.con_tag = {}; W.keep = []
+    W.new_history()
     P = Problem()
     P.minimize(W.exprs[1]); P.subject_to(W.con(1, ">="))
     n0 = len(P._constraints)
@@ -693,7 +813,9 @@ def run(ctx) -> core.Report:
                            "length 3 (+ seeded samples of 4 and 5; thorough: all) over a 10-operation core alphabet, re-submission of "
                            "the identical objective object (same / flipped sense) between solves on every pair of 8 methods; constraints that are "
                            "plain bounds on one variable in every relation to its declared bound × bound edits before / after a solve "
-                           "(also with the real linprog / SLSQP back ends), seeded random "
+                           "(also with the real linprog / SLSQP back ends); objectives / constraint rows aliasing user-supplied NumPy arrays × "
+                           "min / max × mixed LP-path and NLP-path solves with edits in between, reference rebuilt from new arrays, "
+                           "user arrays checked bit-identical after every solve, seeded random "
                            "histories of length 6–14 (thorough 6–24); non-trivial = distinct histories with a solve after an "
                            "edit (objective / sense / constraint / bound) made after some cache was populated")
     W = World()
@@ -727,7 +849,9 @@ def run(ctx) -> core.Report:
     # real back ends (no stubs) on a seeded sample of the constraint/bound family and of the random histories
     try:
         fam = bound_relation_histories(rng, thorough)
-        sample = rng.sample(fam, min(len(fam), 1500 if thorough else 180)) + \
+        fam2 = array_alias_histories(thorough)
+        sample = rng.sample(fam, min(len(fam), 1500 if thorough else 150)) + \
+            rng.sample(fam2, min(len(fam2), 800 if thorough else 90)) + \
             [rand_history(rng, rng.randint(5, 12)) for _ in range(300 if thorough else 40)]
         n_real = 0
         for ops in sample:
